@@ -226,7 +226,7 @@ func run(c *Case, st *stats) *vf.Failure {
 var sess *vf.Session
 
 func genCase(t *rapid.T) *Case {
-	c := &Case{KB: rapid.SampledFrom([]int{200, 400}).Draw(t, "kb")}
+	c := &Case{KB: rapid.SampledFrom([]int{400, 1000}).Draw(t, "kb")}
 	n := rapid.SampledFrom([]int{2, 2, 2, 3}).Draw(t, "ntables")
 	c.Defs = sqlgen.JoinTables(t, n)
 	prof := sqlgen.Profile{}
